@@ -370,6 +370,10 @@ TAKES_CHILD = ["Kron", "Sum", "PsdSum", "Matmul", "ConstantMul", "BlockDiag", "B
                "Interpolated", "Masked", "AddedDiag", "KronAddedDiag", "Root"]
 
 
+TILINGS = [([2], [2]), ([2], [3, 2]), ([2, 3], [2, 1]), ([3], [1, 2]), ([2, 1], [1, 3]), ([2], [1])]
+TILE_CHILDREN = ["Dense", "Toeplitz", "Kron", "Sum", "Matmul", "Diag", "BlockDiag", "Masked", "Interpolated", "Cat", "Kernel", "UserMinimal"]
+
+
 def cells(quick):
     """deterministic structural grid: (cls, child or None, batch kind, size kind, depth)"""
     out = []
@@ -395,6 +399,12 @@ def cells(quick):
             reps = range(1) if quick else range(3)
             for r in reps:
                 out.append((par, ch, bk[(pi + 3 * chi + r) % len(bk)], sk[(2 * pi + chi + r) % len(sk)], 3))
+    # BatchRepeat with genuine tiling: every tiling pattern x square / rectangular sizes x a range of base classes
+    for ti in range(len(TILINGS)):
+        for chi, ch in enumerate(TILE_CHILDREN):
+            if quick and (ti + chi) % 2:
+                continue
+            out.append(("BatchRepeatTile", ch, bk[ti], sk[(ti + chi) % len(sk)], 2))
     if not quick:
         for ci, cls in enumerate(ob.ALL):
             for b in bk:
@@ -406,6 +416,12 @@ def cells(quick):
 def gen_expr(rng, cell):
     cls, child, b, s, depth = cell
     m, n = SIZES[s]
+    if cls == "BatchRepeatTile":
+        # a batch dimension of size > 1 that is REALLY repeated (opbuild.gen only repeats size-1 dimensions)
+        base_batch, rep = TILINGS[list(BKIND).index(b) % len(TILINGS)]
+        base = ob.gen(rng, child or "Dense", batch=list(base_batch), m=m, n=n, depth=max(1, depth - 1))
+        e = {"cls": "BatchRepeat", "base": base, "rep": list(rep)}
+        return sanitize(rng, e, cell)
     if cls == "Root" and child is not None:
         # RootLinearOperator over an OPERATOR root (opbuild.gen only makes tensor roots): R R^T with R of class `child`;
         # this is the public path into the children's _t_matmul
@@ -494,6 +510,9 @@ EXC_CLASSES = [
     ("expected scalar type", "dtype-mismatch"),
     ("expected m1 and m2 to have the same dtype", "dtype-mismatch"),
     ("view size is not compatible with input tensor", "view-noncontiguous"),
+    ("The expanded size of the tensor", "broadcast-size-mismatch"),
+    ("The size of tensor a", "broadcast-size-mismatch"),
+    ("Attempting to broadcast a dimension", "broadcast-size-mismatch"),
 ]
 
 
@@ -513,6 +532,7 @@ def fail_key(e, kind, fk, text, dtype_tag):
            "zero_child": has_zero_child(e),
            "has_perm": bool(cl & {"Permutation", "TransposePermutation"}),
            "children": ",".join(sorted({k["cls"] for k in kids_of(e)})),
+           "square": ob.shape_of(e)[-1] == ob.shape_of(e)[-2],
            "dtype": dtype_tag}
     if kind.startswith("matmul_"):
         key["rhs"] = kind[len("matmul_"):]
@@ -540,8 +560,8 @@ def check_one(e, kind, rhs, dtype_tag="float64"):
         torch.set_default_dtype(old)
 
 
-def shrink(e, kind, fk, dtype_tag):
-    """descend into a child that, on its own, fails some query with the same kind of failure"""
+def shrink(e, kind, fk, dtype_tag, text=""):
+    """descend into a child that, on its own, fails some query with the same kind of failure (same exception class)"""
     rng = random.Random(20240917)
     cur = e
     for _ in range(8):
@@ -552,7 +572,7 @@ def shrink(e, kind, fk, dtype_tag):
                 qs.sort(key=lambda qr: qr[0] != kind)          # the same kind of query first
                 for q, rhs in qs:
                     f, _ = check_one(k, q, rhs, dtype_tag)
-                    if f and f[0] == fk:
+                    if f and f[0] == fk and (fk != "raises" or exc_class(f[1]) == exc_class(text)):
                         nxt = k
                         break
             except Exception:
@@ -658,9 +678,9 @@ def report_predicate_failures(ctx, rng, cases, stats):
                 if not f:
                     continue
                 stats["predicate_failures"] += 1
-                mk = (id(cs), row["kind"], f[0], tag)
+                mk = (id(cs), row["kind"], f[0], tag, exc_class(f[1]) if f[0] == "raises" else "")
                 if mk not in memo:
-                    memo[mk] = shrink(cs["e"], row["kind"], f[0], tag)
+                    memo[mk] = shrink(cs["e"], row["kind"], f[0], tag, f[1])
                 sub = memo[mk]
                 key = fail_key(sub, row["kind"], f[0], f[1], tag)
                 sig = json.dumps(key, sort_keys=True)
@@ -670,6 +690,29 @@ def report_predicate_failures(ctx, rng, cases, stats):
                 ctx.violation(case_replay(cs, row, "property-fails-on-implementation",
                                           {"what": f[1], "dtype": tag, "shrunk_to": ob.describe(sub), "shrunk_expr": sub,
                                            "expected": "torch on the dense matrix assembled by opbuild.dense"}), key=key)
+
+
+def replay_known(ctx):
+    """the witness of every listed known finding of C01 is replayed on the implementation on every run (independent of the
+    seed): still failing -> reported through its structural key (KNOWN-FINDING line); repaired -> nothing"""
+    n = 0
+    for ent in common.load_known():
+        if ent.get("property") != PROP or ent.get("status") != "known":
+            continue
+        rp = ent.get("replay") or {}
+        if "expr" not in rp:
+            continue
+        tag = rp.get("dtype", "float64")
+        try:
+            f, _ = check_one(rp["expr"], rp["query"], rp.get("rhs"), tag)
+        except Exception as ex:
+            f = ("raises", "%s:%s" % (type(ex).__name__, str(ex)[:60]))
+        if f:
+            n += 1
+            sub = shrink(rp["expr"], rp["query"], f[0], tag, f[1])
+            ctx.violation({"kind": "property-fails-on-implementation", "expr": rp["expr"], "query": rp["query"], "rhs": rp.get("rhs"),
+                           "dtype": tag, "what": f[1], "witness_of": ent.get("id")}, key=fail_key(sub, rp["query"], f[0], f[1], tag))
+    return n
 
 
 def run(ctx):
@@ -689,6 +732,7 @@ def run(ctx):
         return ctx.violations > before
     ok = common.proof_stage(ctx, on_fail)
 
+    n_kf = replay_known(ctx)
     cases, skipped, n_dd = observe_all(ctx, rng, cell_list)
     stats = {"predicate_failures": 0, "model_mismatches": 0, "repaired_cells": 0}
     report_predicate_failures(ctx, rng, cases, stats)
@@ -769,7 +813,7 @@ def run(ctx):
         "expressions_inside_covered": n_cov, "default_dtype_mismatch_evaluations": n_dd,
         "classes": len(cls_hist), "class_histogram": cls_hist,
         "model_mismatches": stats["model_mismatches"], "predicate_failures": stats["predicate_failures"],
-        "repaired_known_cells": stats["repaired_cells"],
+        "repaired_known_cells": stats["repaired_cells"], "known_finding_witnesses_still_failing": n_kf,
         "samples": samples, "wall_python_s": round(time.time() - t0, 1),
     })
     ctx.assumptions = [
